@@ -183,8 +183,8 @@ class TX(Builder):
     def kv(self, k=b"a", v=b"b"):
         return self.u(k, b"").raw(b"=").u(v)
 
-    def nest_close(self, h, syms):
-        return Builder.nest_close(self, h, syms, ":0")
+    def nest_close(self, h, syms, mixed=0):
+        return Builder.nest_close(self, h, syms, ":%d" % mixed)
 
     def line(self):
         return "ok 0 " + (" ".join(self.tokens()) or "-")
@@ -315,6 +315,21 @@ def text_ladders():
                 tx.close(sym=sym)
         tx.nest_close(h, [b"] ", b"} ", b"} ", b"} ", b"} "])
         add("text depth mixture O/H/A/P", n, tx)
+    # nested MIXED containers (the `mixed` flag is parked in the parent token while a child is open and restored at its close):
+    # every level is an object that continues with bare values, or an array that continues with key = value
+    for n in lad(1025, 1):
+        tx = TX().u(b"k", b"").raw(b"=")
+        h = tx.nest_open(n - 1, lambda u: u.open("O").kv().m().u(b"x").u(b"y"))
+        tx.open("O").kv().m().u(b"x").q(b"last").close(mixed=1)
+        add("text depth mixed objects", n, tx.nest_close(h, [b"} "], mixed=1))
+        tx = TX().u(b"k", b"").raw(b"=")
+        h = tx.nest_open(n - 1, lambda u: u.open("A").u(b"x").m().u(b"y").op(b"=", 6).u(b"z"))
+        tx.open("A").u(b"x").m().u(b"y").op(b">=", 3).u(b"z").close(mixed=1)
+        add("text depth mixed arrays", n, tx.nest_close(h, [b"} "], mixed=1))
+        tx = TX().u(b"k", b"").raw(b"=")
+        h = tx.nest_open((n - 1) // 2, lambda u: u.open("O").kv().m().u(b"x").u(b"y").open("A").u(b"x").m().u(b"y").op(b"=", 6).u(b"z"))
+        tx.open("A").u(b"e").q(b"f").close()
+        add("text depth mixed objects and arrays alternating", n, tx.nest_close(h, [b"} ", b"} "], mixed=1))
     # ---- siblings
     for n in lad(4097, plus=[65536]):
         tx = TX().u(b"k", b"").raw(b"=").open("O" if n else "A").rep(n, lambda u: u.kv())
@@ -796,6 +811,47 @@ def run_bin(ctx):
     judge.flush()
 
 
+def run_chains(ctx):
+    """reuse COUNT of one tape: n parses in a row into the same tape (documents of changing length, every fourth one
+    rejected half-way); after every step (text) / after the last step (binary) the tape must be the document's tape"""
+    tdocs, bdocs = [], []
+    for i, c in enumerate([0, 2, 9, 1, 33, 3, 257, 5]):
+        tx = TX()
+        if c >= 4:
+            tx.u(b"k", b"").raw(b"=").open("A").rep(c - 3, lambda u: u.u(b"e")).close()
+        elif c >= 2:
+            tx.kv()
+        tdocs.append((bytes(tx.b), plain(tx.line())) if c % 2 == 0 or c > 4 else (b"k={ " * (c + 1) + b"x", "ERR"))
+        bx = BX()
+        if c >= 4:
+            bx.id().eq().open("A").rep(c - 3, lambda u: u.q(b"e1")).close()
+        elif c >= 2:
+            bx.id().eq().q(b"v")
+        bdocs.append((bytes(bx.b), plain(bx.line())) if c % 2 == 0 or c > 4 else (KID + B.EQUAL + B.OPEN * (c + 1), "ERR"))
+    tcases, texp, bcases, bexp = [], [], [], []
+    for n in lad(257, 1):
+        for start in (0, 3):
+            seq = [tdocs[(start + i) % len(tdocs)] for i in range(n)]
+            tcases.append("tt.chain\t" + "\t".join(hexs(d) for d, _ in seq))
+            texp.append((n, " | ".join(e for _, e in seq)))
+            seq = [bdocs[(start + i) % len(bdocs)] for i in range(n)]
+            bcases.append("bt.chain\t" + ";".join(hexs(d) for d, _ in seq))
+            e = seq[-1][1]
+            bexp.append((n, "a=%s | b=%s | fo=%s | fr=%s" % (e, e, e, e)))
+    impl, _ = ctx.correspond("size_chain", tcases + bcases, model=False, nontrivial=lambda c, i: "ok" in i or "OK" in i)
+    base = len(impl) - len(tcases) - len(bcases)
+    for k, (n, e) in enumerate(texp + bexp):
+        o = impl[base + k]
+        if o != e:
+            fmt = "text" if k < len(texp) else "binary"
+            steps_o, steps_e = o.split(" | "), e.split(" | ")
+            j = first_diff(steps_o, steps_e)
+            ctx.fail("size-chain", "%s tape reused for n = %d parses in a row: after step %d the tape is %s, the document's tape is %s"
+                     % (fmt, n, j + 1, " ".join(steps_o[j:j + 1])[:200], " ".join(steps_e[j:j + 1])[:200]), [(tcases + bcases)[k]], [o[:2000]], e[:600])
+    ctx.count("size_chain_cases", len(tcases) + len(bcases))
+
+
 def run(ctx):
     run_text(ctx)
     run_bin(ctx)
+    run_chains(ctx)
